@@ -8,7 +8,7 @@ import math
 import numpy as np
 
 from .base import SessionBase
-from .prng import Rng, mix
+from .prng import Rng, mix, gen_globals
 from .seams import load_pytenet
 from . import kr_oracle as ko
 
@@ -27,10 +27,12 @@ def gen_session(prop: str, tier: str, seed: int) -> dict:
     else:
         style = rng.wpick([('random', 4), ('triangular', 1), ('nilpotent', 1), ('blockdiag', 2), ('real', 1.5), ('identity', 0.4), ('normal', 1)])
     faultfree = rng.chance(0.25)
-    enabled = [] if faultfree else [k for k in ('EIGSIGN', 'ULP') if rng.chance(0.7)] + [k for k in ('CBALIAS', 'CBBUF', 'CBRO', 'CBMEMO') if rng.chance(0.7)]
+    enabled = [] if faultfree else [k for k in ('EIGSIGN', 'ULP') if rng.chance(0.7)] + [k for k in ('CBALIAS', 'CBBUF', 'CBRO', 'CBMEMO') if rng.chance(0.7)] + (['GLOBALS'] if rng.chance(0.5) else [])
     cfg = {'world': 'kr', 'profile': prop, 'tier': tier, 'n': n, 'herm': herm, 'style': style, 'msub': rng.sub(),
            'norm': rng.pick([0.5, 1.0, 1.0, 2.0, 3.0, 4.0]), 'enabled': enabled, 'faultfree': faultfree,
            'blocks': rng.randrange(1, max(2, n)) if n > 1 else 1}
+    if rng.chance(0.05):
+        cfg['pyopt'] = True       # run this session under `python -O`
     ops = []
     for _ in range(rng.randrange(3, 11)):
         if herm:
@@ -67,9 +69,11 @@ def gen_session(prop: str, tier: str, seed: int) -> dict:
               'vstyle': rng.wpick([('generic', 5), ('real', 1.5), ('confined', 3), ('eigvec', 1), ('unit', 1 if style != 'hopping' else 8)]),
               'confine': rng.randrange(1, n + 1), 'hermitian_flag': bool(herm and rng.chance(0.75)), 'numeig': rng.randrange(1, 4),
               'persist': rng.chance(0.3), 'step': rng.pick(['v_inplace', 'v_inplace', 'A_inplace', 'none']),
-              'vscale': rng.pick([1.0, 1.0, 0.25, 8.0, 1e-3, 1e3]), 'vdtype': rng.pick(['complex', 'complex', 'float', 'float', 'int'])}
+              'vscale': rng.pick([1.0, 1.0, 0.25, 8.0, 1e-3, 1e3, 1e-14, 1e-120, 1e120]), 'vdtype': rng.pick(['complex', 'complex', 'float', 'float', 'int'])}
         env_kinds = [k for k in ('EIGSIGN', 'ULP') if k in enabled and rng.chance(0.5)]
         op['env'] = {'gauge': rng.sub(), 'kinds': env_kinds}
+        if 'GLOBALS' in enabled and rng.chance(0.35):
+            op['env']['globals'] = gen_globals(rng)
         ops.append(op)
     return {'world': 'kr', 'prop': prop, 'tier': tier, 'seed': seed, 'config': cfg, 'ops': ops}
 
